@@ -429,7 +429,7 @@ def materialise_case(it, lw):
         raise Unsupported('case mapping of a non-ASCII cased character (not tabulated)')
     out, cons = [], []
     for i, c in enumerate(src.chars):
-        d = z3.Int(f'{lw.name}#{i}') if lw.name else eng.fresh('case', z3.IntSort())
+        d = z3.Int(f'{lw._name}#{i}') if lw._name else eng.fresh('case', z3.IntSort())
         asc = z3.If(z3.And(c >= 65, c <= 90), c + 32, c) if low else z3.If(z3.And(c >= 97, c <= 122), c - 32, c)
         cons.append(z3.If(c < 128, d == asc, CT.char_eq(d, c)))
         cons.append(CT.char_domain(d))
@@ -559,7 +559,7 @@ def getslice(it, fr, o, lo, hi, step):
         if lo_ >= 0 and (hi is None or hi >= 0):
             hi_ = o.L if hi is None else min(hi, o.L)
             chars = o.chars[lo_:hi_]
-            n = it.eng.fresh('slice_n', z3.IntSort())
+            n = z3.Int(f'slice_n({o.name},{lo_},{hi})') if o.name else it.eng.fresh('slice_n', z3.IntSort())
             top = o.n if hi is None else z3.If(o.n < hi, o.n, z3.IntVal(hi))
             it.eng.add(n == z3.If(top - lo_ < 0, z3.IntVal(0), top - lo_))
             return SStr(n, chars, f'{o.name}[{lo_}:{hi}]' if o.name else '')
@@ -1334,7 +1334,7 @@ def bytes_to_hexstr(it, b):
         # canonical spelling of the same bytes: equals src iff src is lower-case
         src = b.src
         name = f'hexof({src.name})' if src.name else ''
-        chars = [eng.fresh('hx', z3.IntSort()) for _ in range(src.L)]
+        chars = [z3.Int(f'{name}#{i}') for i in range(src.L)] if name else [eng.fresh('hx', z3.IntSort()) for _ in range(src.L)]
         out = SStr(src.n, chars, name)
         cons = []
         for i, (c, d) in enumerate(zip(src.chars, chars)):
